@@ -130,6 +130,11 @@ func drawC05(t *rapid.T) C05Case {
 		Unicode: rapid.IntRange(0, 5).Draw(t, "unicode") == 0,
 	}
 	j := gen.GenJournal(t, cfg)
+	wide := rapid.IntRange(0, 7).Draw(t, "wide") == 0
+	if wide {
+		j = gen.GenWideJournal(t)
+		cfg.Prices = 0
+	}
 	var c C05Case
 	if rapid.IntRange(0, 3).Draw(t, "damaged") == 0 {
 		c.Damages = gen.Damage(t, &j, rapid.IntRange(1, 2).Draw(t, "nDamage"))
@@ -147,6 +152,9 @@ func drawC05(t *rapid.T) C05Case {
 		c.Unshuffled = true
 	}
 	tree := gen.SplitIntoTree(t, variant, 7)
+	if wide {
+		tree = gen.SplitIntoTreeMin(t, variant, 4, 8)
+	}
 	c.Variant, c.Main, c.Depth = tree.Files, tree.Main, tree.Depth
 	nfs := rapid.IntRange(1, 3).Draw(t, "nFlagSets")
 	for i := 0; i < nfs; i++ {
